@@ -539,6 +539,13 @@ fn history(req: &Value) -> Value {
     json!({"diffs": diffs, "answers": answers, "panics": panics})
 }
 
+/// every answer of the public API on one workspace state (same shape as a `history` state) -> {"dump": {key: answer}}
+fn answers(req: &Value) -> Value {
+    let mut host = AnalysisHost::new();
+    host.apply_change(state_change(req, None, true));
+    json!({"dump": dump_answers(&host, req, false)})
+}
+
 fn main() {
     panic::set_hook(Box::new(|_| {}));
     let stdin = std::io::stdin();
@@ -565,6 +572,7 @@ fn main() {
             "inverse" => inverse(&req),
             "renameall" => renameall(&req),
             "history" => history(&req),
+            "answers" => answers(&req),
             _ => json!({"error": "unknown command"}),
         });
         let out = match res {
